@@ -21,8 +21,8 @@ const rule = "the path space of C02 (real extender, real combinator, 3-10 ASes, 
 func main() {
 	netgen.Main("C03", "Prov.check03", rule, func(x *netgen.Ctx) {
 		run := x.Run
-		nWorlds := run.Count(8, 300)
-		perWorld := 10
+		nWorlds := run.Count(14, 300)
+		perWorld := 14
 		if run.Tier == "thorough" {
 			perWorld = 40
 		}
